@@ -32,6 +32,19 @@ excluded by construction; the committed replay runs unguarded). The same oracle 
 authentication; afterwards the session is authenticated, a channel is opened and one round trip each way
 must work. "kx" steps are also drawn for the authenticated stage.
 
+link / compression dimensions (both families):
+  frag   segmenting link towards the tested side (`SegLink`, installed as `net.Direction.frag` after the setup): a
+         selected inbound packet arrives as its first `cut` bytes (inside the first cipher block / length field, or
+         in the body), then one idle receive timeout (`net.GAP`), then the rest; selection = every packet | every
+         j-th packet | the packets arriving while the tested side wants new keys (in-flight data and the peer's
+         KEXINIT / kex reply / NEWKEYS of a threshold exchange); optional cap `mss` on every read; at most `gaps`
+         idle gaps per session. Evidence classes frag:*, in particular
+         frag:<family>:gap-inside-first-read-while-rekey-pending.
+  comp   compression negotiated on both sides: none | zlib | zlib@openssh.com (delayed: starts with authentication).
+         The wire oracle inflates independently (`ZTap`: a fresh context per key exchange, RFC 4253 6.2); channel
+         data is incompressible (64 KiB-periodic SHA-256 stream) so that byte thresholds keep being crossed.
+         Evidence classes comp:<name>[:<stage>|:rekeys>=1].
+
 Peer bursts in family "coop" are clipped below the overflow allowance (minus the peer's own kex
 packets): paramiko counts the allowance from the moment it *wants* to rekey, so a cooperative peer
 whose traffic already in flight exceeds the allowance is dropped by design (statement: "If the peer
@@ -53,7 +66,9 @@ RULE = (
     "10-100 packets / 2-32 KiB, traffic program of 4-40 steps {data T->P | P->T | both, IGNORE burst, keepalive idle, IGNOREs to just below the "
     "threshold then keepalives only; before authentication: IGNORE bursts of either side, keepalives, failed password attempts}) for "
     "the cooperative family; (role, stage, thresholds, trigger direction in|out, packet pattern, 0-1 completed rekeys first) for the "
-    "refusing-peer family; non-trivial = >= 2 threshold crossings resolved in one session (counted on the wire), or a "
+    "refusing-peer family; both families x compression none|zlib|zlib@openssh.com x segmenting inbound link of the tested side (none | "
+    "first `cut` 1-80 bytes of a selected packet, idle receive timeout, rest; selected = all | every j-th | those arriving while a "
+    "re-key is pending; read cap 1-100 bytes; 2-4 gaps); non-trivial = >= 2 threshold crossings resolved in one session (counted on the wire), or a "
     "refusing peer; distinct by the case dict"
 )
 
@@ -135,7 +150,7 @@ class Wire:
         for d, sender, c2s in ((self.link.ab, tc, True), (self.link.ba, ts, False)):
             pos = [i for i, e in enumerate(ev) if e[0] == d.name]
             ch = chunks[d.name]
-            pk = peers.Tap(ch, list(sender.v_out), c2s).packets()
+            pk = ZTap(ch, list(sender.v_out), c2s).packets()
             # chunk 0 is the banner line; one chunk per packet afterwards
             if ch and len(pk) > len(ch) - 1:
                 raise R.RefError("more packets than chunks on %s" % d.name)
@@ -159,13 +174,136 @@ def tail_counts(rows):
     return n, b
 
 
+class ZTap(peers.Tap):
+    """peers.Tap with the compression state a key exchange implies (RFC 4253 6.2: the context is initialised after
+    each key exchange): "zlib" = a fresh inflater right after every NEWKEYS of the direction; "zlib@openssh.com" =
+    a fresh inflater per key epoch that starts with the first payload carrying a zlib stream header (0x78 + FCHECK;
+    120 is not an SSH message number), i.e. wherever the sender switched delayed compression on (after
+    USERAUTH_SUCCESS, or at the NEWKEYS of a re-exchange of an authenticated session)."""
+
+    def packets(self):
+        data = self.data
+        while True:
+            i = data.find(b"\n")
+            if i < 0:
+                return []
+            line, data = data[: i + 1], data[i + 1 :]
+            if line.startswith(b"SSH-"):
+                break
+        rx = R.Receiver()
+        rx.feed(data)
+        out = []
+        epoch = 0
+        delayed = False
+        while True:
+            try:
+                seq, payload, pad = rx.next_packet()
+            except R.NeedMore:
+                break
+            if delayed and rx.decompress is None and len(payload) >= 2 and payload[0] == 0x78 and (payload[0] * 256 + payload[1]) % 31 == 0:
+                rx.decompress = R.Decompressor()
+                try:
+                    payload = rx.decompress(payload)
+                except Exception:
+                    raise R.RefError("bad zlib (start of delayed compression)")
+            if not payload:
+                raise R.RefError("empty payload")
+            out.append((epoch, seq, payload[0], payload[1:]))
+            if payload[0] == 21:
+                if epoch >= len(self.epochs):
+                    break
+                e = self.epochs[epoch]
+                epoch += 1
+                d = R.Direction(e["cipher"], e["mac"], e["hash"], e["K"], e["H"], e["sid"], self.c2s)
+                rx.rekey(d, reset_seq=bool(e["strict"]))
+                rx.decompress = R.Decompressor() if e["comp"] == "zlib" else None
+                delayed = e["comp"] == "zlib@openssh.com"
+                if e["comp"] not in ("none", None, "zlib", "zlib@openssh.com"):
+                    raise R.RefError("Tap does not model compression %r" % e["comp"])
+        return out
+
+
+class SegLink:
+    """Iterator for `net.Direction.frag`: a segmenting link towards the tested side. A *selected* packet arrives as
+    its first `cut` bytes, then nothing for one receive timeout (net.GAP), then the rest; `mss` (0 = unlimited) caps
+    every read. Selection `sel`: "all" = every packet, "every" = every `every`-th packet, "rekey" = the packets that
+    arrive while the tested side wants new keys (its public Packetizer.need_rekey() accessor; pacing only). At most
+    `gaps` gaps per session (each costs one 0.1 s read timeout). Packet boundaries are the chunks of the direction
+    (one chunk per packet); positions are counted from the bytes the reader has consumed."""
+
+    BIG = 1 << 20
+
+    def __init__(self, d, transport, plan, header):
+        self.d = d
+        self.t = transport
+        self.cut = max(1, int(plan.get("cut", 1)))
+        self.sel = plan.get("sel", "all")
+        self.every = max(1, int(plan.get("every", 1)))
+        self.left = int(plan.get("gaps", 4))
+        self.mss = int(plan.get("mss", 0)) or self.BIG
+        self.header = header  # bytes of the first read of a packet (cipher block / length field)
+        self.idx = 0
+        self.start = 0
+        self.split = -1
+        self.gapped = True
+        self.stats = {"gaps": 0, "rekey": 0, "rekey-header": 0}
+
+    def __iter__(self):
+        return self
+
+    def wants_rekey(self):
+        f = getattr(getattr(self.t, "packetizer", None), "need_rekey", None)
+        try:
+            return bool(f()) if f is not None else True
+        except Exception:
+            return True
+
+    def __next__(self):
+        d = self.d
+        pos = d.bytes_delivered - len(d.buf)
+        chunks = d.delivered
+        while self.idx < len(chunks) and pos >= self.start + len(chunks[self.idx]):
+            self.start += len(chunks[self.idx])
+            self.idx += 1
+        off = pos - self.start
+        if off == 0 and self.left > 0 and self.split != self.idx:
+            if self.sel == "all" or (self.sel == "every" and self.idx % self.every == 0) or (self.sel == "rekey" and self.wants_rekey()):
+                self.split = self.idx
+                self.gapped = False
+        if self.split == self.idx and not self.gapped:
+            if off < self.cut:
+                return min(self.cut - off, self.mss)
+            self.gapped = True
+            if self.idx < len(chunks) and off < len(chunks[self.idx]):
+                self.left -= 1
+                self.stats["gaps"] += 1
+                if self.wants_rekey():
+                    self.stats["rekey"] += 1
+                    if off < self.header:
+                        self.stats["rekey-header"] += 1
+                return net.GAP
+        return self.mss
+
+
 # ----------------------------------------------------------------------------- helpers
 
 
+_PERIOD = 1 << 16
+_BASE = []
+
+
 def pattern(tag, off, n):
-    base = bytes((i * 7 + tag) & 0xFF for i in range(256))
-    s = off % 256
-    return (base[s:] + base * (n // 256 + 1))[:n]
+    """n bytes at offset `off` of the (64 KiB-periodic, incompressible: zlib's window is 32 KiB) stream `tag`."""
+    if not _BASE:
+        import hashlib
+
+        _BASE.append(b"".join(hashlib.sha256(b"verif-c10-%d" % i).digest() for i in range(_PERIOD // 32)))
+    base = _BASE[0]
+    s = (off + tag * 4099) % _PERIOD
+    out = base[s : s + n]
+    while len(out) < n:
+        out += base[: n - len(out)]
+    return out
 
 
 def recv_exact(ch, n):
@@ -183,13 +321,16 @@ def recv_exact(ch, n):
     return got
 
 
-def restrict(t, cipher, mac):
+COMPS = ["none", "zlib", "zlib@openssh.com"]
+
+
+def restrict(t, cipher, mac, comp="none"):
     so = t.get_security_options()
     so.kex = [peers.FAST_KEX]
     so.ciphers = [cipher]
     so.digests = [mac]
     so.key_types = ["ssh-ed25519"]
-    so.compression = ["none"]
+    so.compression = [comp]
 
 
 def settle(link, T, P, timeout=WAIT):
@@ -218,6 +359,33 @@ CIPHERS = {
 }
 
 
+def install_seglink(case, link, T, role):
+    """Install the case's segmenting-link plan on the tested side's inbound direction (None if the case has none)."""
+    plan = case.get("frag")
+    if not plan:
+        return None
+    in_d = link.ba if role == "client" else link.ab
+    seg = SegLink(in_d, T, plan, 4 if case["suite"] in ("gcm", "etm") else 16)
+    with in_d.cv:
+        in_d.frag = seg
+    return seg
+
+
+def frag_classes(case, fr):
+    plan = case.get("frag")
+    if not plan:
+        return []
+    fam = case["family"]
+    out = ["frag", "frag:%s" % fam, "frag:sel:" + plan.get("sel", "all"), "frag:gaps-taken:%d" % min((fr or {}).get("gaps", 0), 4)]
+    if plan.get("mss"):
+        out.append("frag:mss")
+    if (fr or {}).get("rekey"):
+        out.append("frag:%s:gap-while-rekey-pending" % fam)
+    if (fr or {}).get("rekey-header"):
+        out.append("frag:%s:gap-inside-first-read-while-rekey-pending" % fam)
+    return out
+
+
 # ----------------------------------------------------------------------------- cooperative family
 
 
@@ -231,11 +399,28 @@ AUTH_EXCLUDED = "auth-dialogue-kept-away-from-threshold"
 AUTH_GUARD = [False]
 
 
+# Known finding (two root causes, one per role): with delayed compression ("zlib@openssh.com": both directions switch
+# compression on around USERAUTH_SUCCESS) a re-exchange that starts inside the last round trip of the auth dialogue
+# kills the session: client role = its KEXINIT follows its USERAUTH_REQUEST and reaches the server after that has
+# switched its inflater on; server role = USERAUTH_SUCCESS is held back behind the running exchange but compression is
+# switched on at once. Same exclusion by construction as above while the entries are open, for that sub-domain only.
+DC = "zlib@openssh.com"
+DC_BUCKET = AUTH_BUCKET + ":delayed-compression:"
+DC_GUARD = {"client": False, "server": False}
+
+
+def auth_bucket(case):
+    return DC_BUCKET + case["role"] if case.get("comp") == DC else AUTH_BUCKET
+
+
 def set_auth_guard():
     import os
 
-    ent = core.load_known(PROPERTY).get(AUTH_FINDING, {})
-    AUTH_GUARD[0] = ent.get("status") == "open" and not os.environ.get("C10_ASSUME_FIXED")
+    known = core.load_known(PROPERTY)
+    fixed = bool(os.environ.get("C10_ASSUME_FIXED"))
+    AUTH_GUARD[0] = known.get(AUTH_FINDING, {}).get("status") == "open" and not fixed
+    for role in DC_GUARD:
+        DC_GUARD[role] = known.get("traffic-intact|coop:" + DC_BUCKET + role, {}).get("status") == "open" and not fixed
 
 
 # wire type of the packet that crossed a threshold (evidence classes)
@@ -255,9 +440,10 @@ def run_coop(case):
 
     role = case["role"]
     stage = case.get("stage", "auth")
-    guard_auth = case.get("auth_guard", AUTH_GUARD[0])
+    guard_auth = case.get("auth_guard", AUTH_GUARD[0] or (case.get("comp") == DC and DC_GUARD[role]))
     rp, rb, op, ob = case["rp"], case["rb"], case["op"], case["ob"]
     cipher, mac = CIPHERS[case["suite"]]
+    comp = case.get("comp", "none")
     link = net.Link()
     wire = Wire(link)
     kw = dict(packetizer_class=small_packetizer(Packetizer, rp, rb, op, ob))
@@ -271,9 +457,10 @@ def run_coop(case):
     threads = []
     stalled = None
     notes = {}
+    seg = None
     try:
         for t in (tc, ts):
-            restrict(t, cipher, mac)
+            restrict(t, cipher, mac, comp)
             t.clear_to_send_timeout = 2 * WAIT
         srv = peers.OpenServer()
         srv.policy["check_auth_password"] = lambda u, p: peers.AUTH_SUCCESSFUL if p == "pw" else peers.AUTH_FAILED
@@ -294,6 +481,7 @@ def run_coop(case):
 
         if stage == "auth":
             authenticate()
+        seg = install_seglink(case, link, T, role)
         off = {"T": 0, "P": 0}
         out_dn, in_dn = ("a->b", "b->a") if role == "client" else ("b->a", "a->b")
 
@@ -319,144 +507,152 @@ def run_coop(case):
             tag = 1 if side == "T" else 2
             return b"".join(pattern(tag, start + i * size, size) for i in range(k))
 
-        ka_on = False
-        for si, step in enumerate(case["steps"]):
-            kind = step[0]
-            if kind == "data":
-                _, side, k, size = step
-                sides = ["T", "P"] if side == "B" else [side]
-                plan = {}
-                for s in sides:
-                    kk = clip_peer_burst(k, size, op, ob) if s == "P" else k
-                    if kk > 0:
-                        plan[s] = (kk, off[s])
-                res = {}
-                ths = []
-                for s in plan:
-                    th = threading.Thread(target=send_data, args=(s, plan[s][0], size, res), daemon=True)
-                    threads.append(th)
-                    ths.append(th)
-                    th.start()
-                for s in plan:
-                    rch = chans["P"] if s == "T" else chans["T"]
-                    want = expect(s, plan[s][0], size, plan[s][1])
-                    got = recv_exact(rch, len(want))
-                    if got != want:
-                        d = "step %d %r: %s->other stream: got %d of %d bytes, first diff at %s; sender: %s" % (
-                            si,
-                            step,
-                            s,
-                            len(got),
-                            len(want),
-                            next((i for i in range(min(len(got), len(want))) if got[i] != want[i]), None),
-                            res.get(s),
-                        )
-                        viol.append(("traffic-intact", "stream-short" if want.startswith(got) else "stream-corrupt", d))
-                for th in ths:
-                    th.join(2 * WAIT + 5)
-                for s in plan:
-                    if res.get(s) != "ok" and not viol:
-                        viol.append(("traffic-intact", "send-failed", "step %d %r: %s" % (si, step, res.get(s))))
-            elif kind == "ign":
-                _, side, k, size = step
-                if side == "P":
-                    k = clip_peer_burst(k, size, op, ob)
-                t = T if side == "T" else P
-                try:
-                    for _ in range(k):
-                        t.send_ignore(size)
-                except Exception as e:
-                    viol.append(("traffic-intact", "send-failed", "step %d %r: %r" % (si, step, e)))
-            elif kind == "ka":
-                # keepalive-driven traffic while both applications are idle
-                _, interval_ms, dur_ms = step
-                T.set_keepalive(interval_ms / 1000.0)
-                ka_on = True  # stays enabled until the step has settled (a real application never switches it off)
-                time.sleep(dur_ms / 1000.0)
-            elif kind == "kx":
-                # IGNOREs up to `gap` packets below the packet threshold, then nothing but keepalives: the
-                # threshold is crossed by a keepalive (sent from the transport thread's idle poll)
-                _, gap, interval_ms = step
-                (n_o, b_o), _in = tails()
-                out_dir = link.ab if role == "client" else link.ba
-                guard = 0
-                try:
-                    while n_o + gap < rp and b_o + 200 < rb and guard < rp:
-                        before = len(out_dir.sent)
-                        T.send_ignore(8)
-                        guard += 1
-                        n_o += 1
-                        b_o += len(out_dir.sent[before])
-                except Exception as e:
-                    viol.append(("traffic-intact", "send-failed", "step %d %r: %r" % (si, step, e)))
-                if not viol and settle(link, T, P) == "ok":
-                    k0 = len(link.ab.sent if role == "client" else link.ba.sent)
-                    T.set_keepalive(interval_ms / 1000.0)
-                    end = time.time() + 0.4 + 0.25 * gap
-                    ka_on = True
-                    while time.time() < end and len(link.ab.sent if role == "client" else link.ba.sent) < k0 + gap + 1:
-                        time.sleep(0.01)
-            elif kind == "authfail":
-                # failed password attempts (while AUTH_FINDING is open they only add to the counters: never the crossing packet)
-                for _ in range(step[1]):
-                    if guard_auth and near_threshold():
-                        notes[AUTH_EXCLUDED] = notes.get(AUTH_EXCLUDED, 0) + 1
-                        break
-                    err = None
+        def program():
+            nonlocal stalled
+            ka_on = False
+            for si, step in enumerate(case["steps"]):
+                kind = step[0]
+                if kind == "data":
+                    _, side, k, size = step
+                    sides = ["T", "P"] if side == "B" else [side]
+                    plan = {}
+                    for s in sides:
+                        kk = clip_peer_burst(k, size, op, ob) if s == "P" else k
+                        if kk > 0:
+                            plan[s] = (kk, off[s])
+                    res = {}
+                    ths = []
+                    for s in plan:
+                        th = threading.Thread(target=send_data, args=(s, plan[s][0], size, res), daemon=True)
+                        threads.append(th)
+                        ths.append(th)
+                        th.start()
+                    for s in plan:
+                        rch = chans["P"] if s == "T" else chans["T"]
+                        want = expect(s, plan[s][0], size, plan[s][1])
+                        got = recv_exact(rch, len(want))
+                        if got != want:
+                            d = "step %d %r: %s->other stream: got %d of %d bytes, first diff at %s; sender: %s" % (
+                                si,
+                                step,
+                                s,
+                                len(got),
+                                len(want),
+                                next((i for i in range(min(len(got), len(want))) if got[i] != want[i]), None),
+                                res.get(s),
+                            )
+                            viol.append(("traffic-intact", "stream-short" if want.startswith(got) else "stream-corrupt", d))
+                    for th in ths:
+                        th.join(2 * WAIT + 5)
+                    for s in plan:
+                        if res.get(s) != "ok" and not viol:
+                            viol.append(("traffic-intact", "send-failed", "step %d %r: %s" % (si, step, res.get(s))))
+                elif kind == "ign":
+                    _, side, k, size = step
+                    if side == "P":
+                        k = clip_peer_burst(k, size, op, ob)
+                    t = T if side == "T" else P
                     try:
-                        tc.auth_password("u", "wrong")
-                        raise core.HarnessError("wrong password accepted")
-                    except AuthenticationException as e:
-                        notes["authfail"] = notes.get("authfail", 0) + 1
-                        if not (tc.is_active() and ts.is_active()):
+                        for _ in range(k):
+                            t.send_ignore(size)
+                    except Exception as e:
+                        viol.append(("traffic-intact", "send-failed", "step %d %r: %r" % (si, step, e)))
+                elif kind == "ka":
+                    # keepalive-driven traffic while both applications are idle
+                    _, interval_ms, dur_ms = step
+                    T.set_keepalive(interval_ms / 1000.0)
+                    ka_on = True  # stays enabled until the step has settled (a real application never switches it off)
+                    time.sleep(dur_ms / 1000.0)
+                elif kind == "kx":
+                    # IGNOREs up to `gap` packets below the packet threshold, then nothing but keepalives: the
+                    # threshold is crossed by a keepalive (sent from the transport thread's idle poll)
+                    _, gap, interval_ms = step
+                    (n_o, b_o), _in = tails()
+                    out_dir = link.ab if role == "client" else link.ba
+                    guard = 0
+                    try:
+                        while n_o + gap < rp and b_o + 200 < rb and guard < rp:
+                            before = len(out_dir.sent)
+                            T.send_ignore(8)
+                            guard += 1
+                            n_o += 1
+                            b_o += len(out_dir.sent[before])
+                    except Exception as e:
+                        viol.append(("traffic-intact", "send-failed", "step %d %r: %r" % (si, step, e)))
+                    if not viol and settle(link, T, P) == "ok":
+                        k0 = len(link.ab.sent if role == "client" else link.ba.sent)
+                        T.set_keepalive(interval_ms / 1000.0)
+                        end = time.time() + 0.4 + 0.25 * gap
+                        ka_on = True
+                        while time.time() < end and len(link.ab.sent if role == "client" else link.ba.sent) < k0 + gap + 1:
+                            time.sleep(0.01)
+                elif kind == "authfail":
+                    # failed password attempts (while AUTH_FINDING is open they only add to the counters: never the crossing packet)
+                    for _ in range(step[1]):
+                        if guard_auth and near_threshold():
+                            notes[AUTH_EXCLUDED] = notes.get(AUTH_EXCLUDED, 0) + 1
+                            break
+                        err = None
+                        try:
+                            tc.auth_password("u", "wrong")
+                            raise core.HarnessError("wrong password accepted")
+                        except AuthenticationException as e:
+                            notes["authfail"] = notes.get("authfail", 0) + 1
+                            if not (tc.is_active() and ts.is_active()):
+                                err = e
+                        except (SSHException, EOFError) as e:
                             err = e
-                    except (SSHException, EOFError) as e:
-                        err = e
-                    if err is not None:
-                        viol.append(("traffic-intact", AUTH_BUCKET, "step %d %r: password attempt ended with %r; active(T,P)=%r exceptions=%r" % (si, step, err, (T.is_active(), P.is_active()), (T.get_exception(), P.get_exception()))))
-                        break
-            if viol:
-                break
-            st_ = settle(link, T, P)
-            if ka_on:
-                T.set_keepalive(0)
-                ka_on = False
-                if st_ == "ok":
-                    st_ = settle(link, T, P)
-            if st_ != "ok":
-                stalled = "after step %d %r: %s" % (si, step, st_)
-                break
-        if stage != "auth" and not viol and stalled is None:
-            # authentication must still work; its packets are kept away from a crossing like "authfail"
-            guard = 0
-            while guard_auth and near_threshold(pk=6, by=1200) and guard < 40:
-                (n_o, b_o), (n_i, b_i) = tails()
-                if n_o + 6 >= rp or b_o + 1200 >= rb:
-                    T.send_ignore(64)
-                if n_i + 6 >= rp or b_i + 1200 >= rb:
-                    P.send_ignore(64)
-                guard += 1
-                if settle(link, T, P) != "ok":
-                    stalled = "before authentication"
+                        if err is not None:
+                            viol.append(("traffic-intact", auth_bucket(case), "step %d %r: password attempt ended with %r; active(T,P)=%r exceptions=%r" % (si, step, err, (T.is_active(), P.is_active()), (T.get_exception(), P.get_exception()))))
+                            break
+                if viol:
                     break
-            if stalled is None:
-                try:
-                    authenticate()
-                except (SSHException, EOFError) as e:
-                    viol.append(("traffic-intact", AUTH_BUCKET, "authentication / first channel after the program ended with %r; active(T,P)=%r exceptions=%r" % (e, (T.is_active(), P.is_active()), (T.get_exception(), P.get_exception()))))
-                if not viol and settle(link, T, P) != "ok":
-                    stalled = "after authentication"
-        # final liveness probe: one more round trip each way
-        if not viol and stalled is None:
-            for s in ("T", "P"):
-                res = {}
-                start = off[s]
-                send_data(s, 1, 32, res)
-                got = recv_exact(chans["P"] if s == "T" else chans["T"], 32)
-                if got != expect(s, 1, 32, start):
-                    viol.append(("traffic-intact", "final-roundtrip", "direction %s: %r / %s" % (s, got[:8], res.get(s))))
-            if settle(link, T, P) != "ok":
-                stalled = "after final round trip"
+                st_ = settle(link, T, P)
+                if ka_on:
+                    T.set_keepalive(0)
+                    ka_on = False
+                    if st_ == "ok":
+                        st_ = settle(link, T, P)
+                if st_ != "ok":
+                    stalled = "after step %d %r: %s" % (si, step, st_)
+                    break
+            if stage != "auth" and not viol and stalled is None:
+                # authentication must still work; its packets are kept away from a crossing like "authfail"
+                guard = 0
+                while guard_auth and near_threshold(pk=6, by=1200) and guard < 40:
+                    (n_o, b_o), (n_i, b_i) = tails()
+                    if n_o + 6 >= rp or b_o + 1200 >= rb:
+                        T.send_ignore(64)
+                    if n_i + 6 >= rp or b_i + 1200 >= rb:
+                        P.send_ignore(64)
+                    guard += 1
+                    if settle(link, T, P) != "ok":
+                        stalled = "before authentication"
+                        break
+                if stalled is None:
+                    try:
+                        authenticate()
+                    except (SSHException, EOFError) as e:
+                        viol.append(("traffic-intact", auth_bucket(case), "authentication / first channel after the program ended with %r; active(T,P)=%r exceptions=%r" % (e, (T.is_active(), P.is_active()), (T.get_exception(), P.get_exception()))))
+                    if not viol and settle(link, T, P) != "ok":
+                        stalled = "after authentication"
+            # final liveness probe: one more round trip each way
+            if not viol and stalled is None:
+                for s in ("T", "P"):
+                    res = {}
+                    start = off[s]
+                    send_data(s, 1, 32, res)
+                    got = recv_exact(chans["P"] if s == "T" else chans["T"], 32)
+                    if got != expect(s, 1, 32, start):
+                        viol.append(("traffic-intact", "final-roundtrip", "direction %s: %r / %s" % (s, got[:8], res.get(s))))
+                if settle(link, T, P) != "ok":
+                    stalled = "after final round trip"
+
+        try:
+            program()
+        except R.RefError as e:
+            # a pacing decode of the wire log failed while the program was running
+            viol.append(("traffic-intact", "wire-undecodable", "independent decoder rejects the recorded stream: %s" % e))
         alive = (T.is_active(), P.is_active())
         exc = (T.get_exception(), P.get_exception()) if alive != (True, True) else (None, None)
         snap = wire.snapshot()
@@ -470,7 +666,7 @@ def run_coop(case):
         dec = wire.decode(tc, ts, snap)
     except R.RefError as e:
         viol.append(("traffic-intact", "wire-undecodable", "independent decoder rejects the recorded stream: %s" % e))
-        return dict(viol=viol, crossings=0, rekeys=0)
+        return dict(viol=viol, crossings=0, rekeys=0, frag=dict(seg.stats) if seg is not None else None)
     pk_out, pk_in = dec[out_name], dec[in_name]
     crossings = []
     unresolved = []
@@ -534,6 +730,7 @@ def run_coop(case):
         kinds=sorted(set(c[0] + ":" + c[3] for c in crossings)),
         xtypes=sorted(xtypes),
         notes=notes,
+        frag=dict(seg.stats) if seg is not None else None,
     )
 
 
@@ -549,6 +746,14 @@ def puppet_packet(kind, size, chan_id, n):
 
 
 def run_refuse(case):
+    try:
+        return _run_refuse(case)
+    except R.RefError as e:
+        # a pacing decode of the wire log failed: what the tested side wrote does not verify / inflate
+        return dict(viol=[("traffic-intact", "wire-undecodable", "independent decoder rejects the recorded stream: %s" % e)], info={})
+
+
+def _run_refuse(case):
     from paramiko.packet import Packetizer
     from paramiko.ssh_exception import SSHException
 
@@ -571,7 +776,7 @@ def run_refuse(case):
     info = {}
     try:
         for t in (tc, ts):
-            restrict(t, cipher, mac)
+            restrict(t, cipher, mac, case.get("comp", "none"))
             t.clear_to_send_timeout = 2 * WAIT
         ce, se = peers.start_both(tc, ts, peers.OpenServer())
         if ce or se:
@@ -588,6 +793,9 @@ def run_refuse(case):
         P.raw()
         if not link.wait_quiescent(WAIT):
             raise core.HarnessError("link not quiescent after setup")
+        seg = install_seglink(case, link, T, role)
+        if seg is not None:
+            info["frag"] = seg.stats
         pat = case["pattern"]
         sent_n = [0]
 
@@ -758,12 +966,16 @@ def check_case(ctx, case, record=True):
             cls += ["stage:" + stage, "coop:%s:%s" % (stage, case["role"])] + ["crossed-by:%s:%s" % (stage, x) for x in r.get("xtypes", [])]
             cls += ["coop:%s:crossings>=1" % stage] if r.get("crossings", 0) >= 1 else []
             cls += ["note:" + k for k in r.get("notes", {})]
+            comp = case.get("comp", "none")
+            cls += ["comp:" + comp, "comp:%s:%s" % (comp, stage)] + (["comp:%s:rekeys>=1" % comp] if r.get("rekeys", 0) >= 1 else [])
+            cls += frag_classes(case, r.get("frag"))
             if r.get("notes", {}).get(AUTH_EXCLUDED):
-                ctx.exclude(AUTH_EXCLUDED + " (open finding %s)" % AUTH_FINDING, r["notes"][AUTH_EXCLUDED])
+                ctx.exclude(AUTH_EXCLUDED + " (open finding %s)" % (AUTH_FINDING if AUTH_GUARD[0] else "traffic-intact|coop:" + auth_bucket(case)), r["notes"][AUTH_EXCLUDED])
         else:
             nt = True
             stage = case.get("stage", "auth")
             cls = ["refuse", "role:" + case["role"], "suite:" + case["suite"], "trigger:" + case["trigger"], "pre:%d" % case["pre"], "stage:" + stage, "refuse:%s:%s" % (stage, case["trigger"])]
+            cls += ["comp:" + case.get("comp", "none"), "refuse:comp:" + case.get("comp", "none")] + frag_classes(case, r.get("info", {}).get("frag"))
         ctx.case(case, nt, cls)
     if r["viol"]:
         clause, bucket, detail = r["viol"][0]
@@ -779,6 +991,23 @@ def thresholds(draw):
     op = draw(st.integers(10, 100))
     ob = draw(st.integers(2048, 32768))
     return rp, rb, op, ob
+
+
+@st.composite
+def link_plans(draw):
+    """Segmenting link towards the tested side (see SegLink); None = packets arrive whole (2 of 5)."""
+    if draw(st.sampled_from([0, 0, 1, 1, 1])) == 0:
+        return None
+    return dict(
+        cut=draw(st.one_of(st.integers(1, 3), st.integers(1, 15), st.integers(1, 15).map(lambda v: v), st.integers(16, 80))),
+        sel=draw(st.sampled_from(["rekey", "rekey", "rekey", "every", "all"])),
+        every=draw(st.integers(2, 9)),
+        gaps=draw(st.integers(2, 4)),
+        mss=draw(st.sampled_from([0, 0, 0, 1, 5, 16, 100])),
+    )
+
+
+comps = st.sampled_from(["none", "none", "zlib", "zlib@openssh.com"])
 
 
 @st.composite
@@ -846,6 +1075,8 @@ def coop_cases(draw):
         op=op,
         ob=ob,
         steps=out,
+        comp=draw(comps),
+        frag=draw(link_plans()),
     )
 
 
@@ -867,6 +1098,8 @@ def refuse_cases(draw):
         pre=draw(st.sampled_from([0, 0, 1])),
         tsize=draw(st.integers(1, 300)),
         pattern=[list(p) for p in draw(st.lists(pk, min_size=1, max_size=5))],
+        comp=draw(comps),
+        frag=draw(link_plans()),
     )
 
 
@@ -884,6 +1117,13 @@ FIXED = [
     dict(family="refuse", role="server", stage="preauth", suite="etm", rp=20, rb=65536, op=12, ob=32768, trigger="in", pre=1, tsize=10, pattern=[["ign", 8], ["dbg", 40]]),
     dict(family="refuse", role="client", stage="preauth", suite="ctr", rp=40, rb=8192, op=30, ob=4096, trigger="out", pre=0, tsize=100, pattern=[["ign", 300]]),
     dict(family="coop", role="client", suite="cbc", rp=40, rb=65536, op=40, ob=16384, steps=[["kx", 2, 20], ["data", "T", 3, 100], ["kx", 1, 50]]),
+    # segmenting link towards the tested side (packets arrive in two pieces with an idle gap) / compression negotiated
+    dict(family="coop", role="client", suite="ctr", rp=30, rb=65536, op=40, ob=16384, steps=[["ign", "T", 35, 10], ["data", "B", 20, 50], ["data", "P", 25, 100], ["data", "T", 40, 20]], frag=dict(cut=5, sel="rekey", every=1, gaps=4, mss=0)),
+    dict(family="coop", role="server", suite="gcm", rp=200, rb=8192, op=40, ob=16384, steps=[["data", "P", 6, 1000]] * 3 + [["data", "T", 6, 1000]] * 3, frag=dict(cut=2, sel="rekey", every=1, gaps=4, mss=7)),
+    dict(family="coop", role="server", suite="cbc", rp=40, rb=65536, op=40, ob=16384, steps=[["data", "B", 15, 100]] * 4, frag=dict(cut=9, sel="every", every=3, gaps=4, mss=0), comp="zlib"),
+    dict(family="coop", role="client", suite="etm", rp=50, rb=6000, op=40, ob=16384, steps=[["data", "T", 4, 1000], ["data", "P", 4, 1000], ["ign", "T", 60, 10], ["data", "B", 3, 2000]], comp="zlib@openssh.com"),
+    dict(family="coop", role="client", stage="preauth", suite="ctr", rp=25, rb=65536, op=40, ob=16384, steps=[["ign", "T", 30, 10], ["ign", "P", 20, 16], ["ign", "T", 30, 100]], comp="zlib", frag=dict(cut=1, sel="all", every=1, gaps=3, mss=0)),
+    dict(family="refuse", role="server", suite="ctr", rp=30, rb=65536, op=20, ob=32768, trigger="out", pre=1, tsize=20, pattern=[["data", 50], ["ign", 5]], comp="zlib", frag=dict(cut=3, sel="rekey", every=1, gaps=4, mss=0)),
 ]
 
 
@@ -897,8 +1137,8 @@ def run(ctx):
             if ctx.out_of_time():
                 break
             check_case(ctx, c)
-    n_coop = ctx.scale(26, 260)
-    n_ref = ctx.scale(18, 200)
+    n_coop = ctx.scale(24, 260)
+    n_ref = ctx.scale(14, 200)
     ctx.explore(coop_cases(), lambda c: check_case(ctx, c), n_coop, shrink=False)
     ctx.explore(refuse_cases(), lambda c: check_case(ctx, c), n_ref, shrink=False, seed_offset=1)
 
